@@ -272,6 +272,8 @@ def verdict(c, io, idict, mdict, mo):
                 "quadtree does not store each point exactly once: " + why)
     if mo.startswith("ERR") or mo.startswith("bad"):
         return ("broken", "model:" + mo.split()[0], "model driver answered %s" % mo)
+    if mdict.get("fin", "").startswith("BAD"):
+        return ("fail", "forces-non-finite", "computeNonEdgeForces returned a non-finite force or sum_Q: " + mdict["fin"][:200])
     for k, sig, what in (("th0", "theta0-forces", "theta = 0 forces differ from the exact all-pairs Student-t sums"),
                          ("below", "below-threshold-forces", "forces for 0 < theta < theta0 differ from the exact sums"),
                          ("quad", "error-bound", "Barnes-Hut error exceeds 16*theta^2*sum_Q (test-level bound)")):
